@@ -41,6 +41,7 @@ let do_fp () =
   let d = nexti () <> 0 in
   Printf.printf "case %s\n" id;
   Printf.printf "ok %d %d\n" (if fp_all_ok n dt zb d then 1 else 0) (if fp_access_ok n dt zb d then 1 else 0);
+  Printf.printf "guard %d\n" (if fp_guard n zb then 1 else 0);
   (match fp_table n dt zb d with
    | Some t -> pzs "table" t
    | None -> print_string "table UB\n");
